@@ -697,11 +697,17 @@ fn explore_head(cfg: Arc<HeadCfg>, ord: u64, rep: &mut Report) {
             let _ = f.write(&mut []);
             if cfg.spec.body.is_some() {
                 match AnyFlow::SendRequest(f).proceed() {
-                    Ok(Some(AnyFlow::SendBody(mut b))) => {
+                    Ok(Some(AnyFlow::SendBody(b))) => {
                         if cfg.spec.body == Some(true) {
-                            if b.can_proceed() || b.write(b"x", &mut buf).map(|r| r.0) != Ok(1) {
+                            let mut b2 = b.clone();
+                            if b2.can_proceed() || b2.write(b"x", &mut buf).map(|r| r.0) != Ok(1) {
                                 rep.violation(Violation { key: "C02:body-writer-disturbed".into(), ord: ord * 100, what: format!("repeated head writes after completion disturbed the body writer [{}]", cfg.label), replay: json!({"label": cfg.label, "ord": ord, "trace": [16384, 16384, 0]}) });
                             }
+                        }
+                        // "exactly the framing header that the body will actually use": write a body and
+                        // read it back the way the head announces it
+                        if let Some(what) = body_uses_announced_framing(b, &cfg.refb, cfg.spec.body == Some(true)) {
+                            rep.violation(Violation { key: "C02:framing-header:body-differs".into(), ord: ord * 100, what: format!("{} [{}]", what, cfg.label), replay: json!({"label": cfg.label, "ord": ord, "trace": []}) });
                         }
                     }
                     Ok(Some(AnyFlow::Await100(_))) => {}
@@ -718,6 +724,49 @@ fn explore_head(cfg: Arc<HeadCfg>, ord: u64, rep: &mut Report) {
         }
     }
     rep.distinct_hash(&(ord, &cfg.label));
+}
+
+/// Writes a body through the flow that has just sent `head` and decodes the output by the framing the head
+/// announces (Content-Length: n -> exactly the n bytes; chunked -> a strict chunk coding of the bytes).
+fn body_uses_announced_framing(mut b: ureq_proto::client::flow::Flow<(), ureq_proto::client::flow::state::SendBody>, head: &[u8], chunked: bool) -> Option<String> {
+    let parsed = crate::refmodel::head::parse(head).ok()?;
+    let n = if chunked { 3 } else { parsed.get_all("content-length").first().and_then(|v| std::str::from_utf8(v).ok()).and_then(|v| v.trim().parse::<usize>().ok())? };
+    if n > 4096 {
+        return None;
+    }
+    let payload: Vec<u8> = (0..n).map(|i| b"xyz"[i % 3]).collect();
+    let mut buf = vec![0u8; 16384];
+    let mut out = Vec::new();
+    let r = guarded(|| -> Result<(), String> {
+        if n > 0 {
+            let (c, k) = b.write(&payload, &mut buf).map_err(|e| format!("body write of {} bytes refused: {:?}", n, e))?;
+            out.extend_from_slice(&buf[..k]);
+            if c != n {
+                return Err(format!("body write consumed {} of {} bytes with a 16 KiB buffer", c, n));
+            }
+        }
+        let (_, k) = b.write(&[], &mut buf).map_err(|e| format!("finishing write refused: {:?}", e))?;
+        out.extend_from_slice(&buf[..k]);
+        if !b.can_proceed() {
+            return Err("the body is not reported finished after all announced bytes and the finishing write".into());
+        }
+        Ok(())
+    });
+    match r {
+        Ok(Ok(())) => {}
+        Ok(Err(e)) => return Some(e),
+        Err(p) => return Some(format!("panic while writing the body: {}", p)),
+    }
+    if chunked {
+        match crate::refmodel::chunked::decode_strict(&out) {
+            Ok(d) if d.leftover == 0 && d.terminators == 1 && d.chunks.concat() == payload => None,
+            _ => Some(format!("the head announces Transfer-Encoding: chunked but the body went out as {:?}", show(&out[..out.len().min(40)]))),
+        }
+    } else if out != payload {
+        Some(format!("the head announces Content-Length: {} but the body went out as {:?}", n, show(&out[..out.len().min(40)])))
+    } else {
+        None
+    }
 }
 
 fn all_cfgs(tier: Tier) -> Vec<Result<Arc<HeadCfg>, (String, String, u64)>> {
